@@ -4,8 +4,8 @@ CONSTANTS
   MaxLen = 2
   KeyWithoutType = FALSE
   FirstIndexOnly = TRUE
-  ShapeSet = {"S1", "S2", "S3", "S4", "S5", "S6", "S7", "S9", "S10", "S11", "S12", "S13", "S14", "any", "mss", "msi", "mii"}
-  NameSet = {"X", "Y", "Z", "W", "Q", "K", "Name", "PName", "AName", "ARename", "hidden", "nosuch", "x", "name", "Cust", "V", "U", "Uelan", "uelan"}
+  ShapeSet = {"S1", "S2", "S3", "S4", "S5", "S6", "S7", "S9", "S10", "S11", "S12", "S13", "S14", "any", "mss", "msi", "mii", "mnk"}
+  NameSet = {"X", "Y", "Z", "W", "Q", "K", "Name", "PName", "AName", "ARename", "hidden", "nosuch", "x", "name", "Cust", "V", "U", "Uelan", "uelan", "Uviet", "Uvietm"}
 INVARIANTS
   CacheUnobservable
   Bounded
